@@ -365,6 +365,30 @@ func (val *Valuation) evalInt(f *wframe, v ssa.Value, phi map[*ssa.Phi]ssa.Value
 		}
 		if val.Typed {
 			switch x.Op {
+			case token.SHL:
+				if b >= 0 && b < 64 {
+					return wrapToType(int64(uint64(a)<<uint(b)), x.Type()), true
+				}
+				if b >= 64 {
+					return 0, true
+				}
+			case token.SHR:
+				if bt, ok := x.X.Type().Underlying().(*types.Basic); ok && b >= 0 {
+					if bt.Info()&types.IsUnsigned != 0 {
+						if b >= 64 {
+							return 0, true
+						}
+						return int64(uint64(a) >> uint(b)), true
+					}
+					if b >= 63 {
+						b = 63
+					}
+					return a >> uint(b), true
+				}
+			case token.AND_NOT:
+				return a &^ b, true
+			}
+			switch x.Op {
 			case token.ADD:
 				return wrapToType(a+b, x.Type()), true
 			case token.SUB:
